@@ -14,7 +14,8 @@ from .ir import callee, walk, short
 # adaptors through which a value passes unchanged (as far as identity of the datum is concerned)
 PASS_THROUGH = ('clone', 'to_owned', 'to_string', 'into', 'as_ref', 'as_str', 'deref', 'borrow', 'as_deref', 'to_vec',
                 'from', 'as_mut', 'as_slice', 'into_iter', 'iter', 'cloned', 'copied', 'unwrap_or_default', 'keys',
-                'values', 'filter', 'map', 'collect', 'iter_mut', 'flatten', 'rev', 'take', 'as_bytes', 'as_path', 'to_path_buf')
+                'values', 'filter', 'map', 'collect', 'iter_mut', 'flatten', 'rev', 'take', 'as_bytes', 'as_path', 'to_path_buf',
+                'ok', 'ok_or', 'ok_or_else', 'map_err', 'as_deref_mut')
 WRAPPERS = ('Some', 'Ok', 'Box::new', 'Arc::new')
 
 
